@@ -504,3 +504,150 @@ Example C07_vi_example_sync :
   /\ r_time r = 3 /\ r_events r = 5%nat /\ r_steps r = 2%nat /\ r_stuck r = false
   /\ loci (r_final r) = [[EE 2 1]; [EN 1]].
 Proof. exact CVI_example_sync. Qed.
+
+(* ================================================================================================
+   SIR_VariableInfection, continued: the infectivities never change, quiescence (the Gillespie loop leaves through
+   total rate 0 with nothing pending only when no S-I edge has positive infectivity and, for pRemove > 0, no node is
+   infected), the counts of the final state, and the posted-removal subclass: every call, posted ones included,
+   moves nodes only along S>I or I>R.  Proofs/CompartVIQuiet.v, CompartVIPost.v, ContactVIMain.v. *)
+From EpyV Require Import Model.KernelDyn Model.CompartVI Proofs.CompartRun Proofs.CompartInv Proofs.ContactBase Proofs.ContactInv Proofs.ContactForest Proofs.ContactTime Proofs.KernelDyn Proofs.KernelDynLoops Proofs.KernelDynRun Proofs.CompartVI Proofs.CompartVIMain Proofs.ContactVI Proofs.ContactVITime Proofs.CompartVIQuiet Proofs.CompartVIPost Proofs.ContactVIMain.
+
+Theorem C07_vi_infectivity_constant :
+  forall (vm : vimodel) (nodes : list Z) (edges init : list (Z * Z)) (inf : list (Z * Z * Q))
+           (maxtime : Q) (monitor : option Q) (Xtr : trans viworld -> Prop) (rs ls : list Q) 
+           (ds : list nat) (cs : list (st viworld * dcall)) (s : st viworld),
+         let D := mk_vitable vm nodes edges init inf maxtime monitor in
+         DSteps D Xtr (setup_state (d_tb D) rs ls ds) cs s ->
+         vi_inf (world s) = inf /\ Forall (fun sc : st viworld * dcall => vi_inf (world (fst sc)) = inf) cs.
+Proof. exact CVI7_infectivity_constant. Qed.
+
+Theorem C07_vi_quiescent_exit :
+  forall (vm : vimodel) (nodes : list Z) (edges init : list (Z * Z)) (inf : list (Z * Z * Q))
+           (maxtime : Q) (monitor : option Q) (pf f : nat) (t : Q) (ev : nat) (s : st viworld),
+         let D := mk_vitable vm nodes edges init inf maxtime monitor in
+         KernelMember.at_equil (d_tb D) t s = false ->
+         Qeq_bool (dsum_rates s (dtransitions D (loci s) (world s))) 0 = true ->
+         head (queue (discard s)) = None -> dstoch_loop D pf (S f) t ev s = (t, ev, discard s).
+Proof. exact CVI7_quiescent_exit. Qed.
+
+Theorem C07_vi_quiescent :
+  forall (vm : vimodel) (nodes : list Z) (edges init : list (Z * Z)) (inf : list (Z * Z * Q))
+           (maxtime : Q) (monitor : option Q) (s : st viworld),
+         let D := mk_vitable vm nodes edges init inf maxtime monitor in
+         vi_nonneg vm (world s) ->
+         Qeq_bool (dsum_rates s (dtransitions D (loci s) (world s))) 0 = true ->
+         (forall e : Kernel.elem, In e (nth (vim_si vm) (loci s) []) -> de_p (vi_entry vm (world s) e) == 0) /\
+         (forall cev : cevent,
+          In cev (vim_events vm) -> ce_elem cev = true -> 0 < ce_p cev -> locus s (ce_locus cev) = []).
+Proof. exact CVI7_quiescent. Qed.
+
+Theorem C07_vi_quiescent_no_edge :
+  forall (vm : vimodel) (nodes : list Z) (edges init : list (Z * Z)) (inf : list (Z * Z * Q))
+           (maxtime : Q) (monitor : option Q) (s : st viworld) (l r : Z),
+         let D := mk_vitable vm nodes edges init inf maxtime monitor in
+         VJ vm nodes edges s ->
+         vi_nonneg vm (world s) ->
+         Qeq_bool (dsum_rates s (dtransitions D (loci s) (world s))) 0 = true ->
+         (vim_si vm < length (vim_specs vm))%nat ->
+         nth (vim_si vm) (vim_specs vm) default_spec = EdgeLocus l r ->
+         (l =? r)%Z = false ->
+         forall n m : Z,
+         In (n, m) edges \/ In (m, n) edges ->
+         getc (cw_st (vi_base (world s))) n = Some l ->
+         getc (cw_st (vi_base (world s))) m = Some r ->
+         forall p : Q, infectivity (vi_inf (world s)) n m = Some p -> p == 0.
+Proof. exact CVI7_quiescent_no_edge. Qed.
+
+Theorem C07_vi_quiescent_no_node :
+  forall (vm : vimodel) (nodes : list Z) (edges init : list (Z * Z)) (inf : list (Z * Z * Q))
+           (maxtime : Q) (monitor : option Q) (s : st viworld) (cev : cevent) (c : Z),
+         let D := mk_vitable vm nodes edges init inf maxtime monitor in
+         VJ vm nodes edges s ->
+         vi_nonneg vm (world s) ->
+         Qeq_bool (dsum_rates s (dtransitions D (loci s) (world s))) 0 = true ->
+         In cev (vim_events vm) ->
+         ce_elem cev = true ->
+         0 < ce_p cev ->
+         (ce_locus cev < length (vim_specs vm))%nat ->
+         nth (ce_locus cev) (vim_specs vm) default_spec = NodeLocus c ->
+         forall v : Z, In v nodes -> getc (cw_st (vi_base (world s))) v <> Some c.
+Proof. exact CVI7_quiescent_no_node. Qed.
+
+Theorem C07_vi_counts_stoch :
+  forall (vm : vimodel) (nodes : list Z) (edges init : list (Z * Z)) (inf : list (Z * Z * Q))
+           (maxtime : Q) (monitor : option Q) (pf fuel : nat) (rs ls : list Q) (ds : list nat),
+         wf_loci (vim_specs vm) = true ->
+         graph_okb nodes edges = true ->
+         init_ok (vi_cm vm) nodes init = true ->
+         let st :=
+           cw_st
+             (vi_base
+                (world
+                   (r_final (dstoch_run (mk_vitable vm nodes edges init inf maxtime monitor) pf fuel rs ls ds))))
+           in
+         st_nodes st = nodes /\
+         (forall v : Z, In v nodes -> exists c : Z, getc st v = Some c /\ In c (cm_comps (vi_cm vm))) /\
+         NoDup (cm_comps (vi_cm vm)) /\
+         CompartDiagram.lsum (map (count_in st) (cm_comps (vi_cm vm))) = length nodes.
+Proof. exact CVI7_counts_stoch. Qed.
+
+Theorem C07_vi_counts_sync :
+  forall (vm : vimodel) (nodes : list Z) (edges init : list (Z * Z)) (inf : list (Z * Z * Q))
+           (maxtime : Q) (monitor : option Q) (pf fuel : nat) (rs : list Q) (ds : list nat),
+         wf_loci (vim_specs vm) = true ->
+         graph_okb nodes edges = true ->
+         init_ok (vi_cm vm) nodes init = true ->
+         let st :=
+           cw_st
+             (vi_base
+                (world (r_final (dsync_run (mk_vitable vm nodes edges init inf maxtime monitor) pf fuel rs ds))))
+           in
+         st_nodes st = nodes /\
+         (forall v : Z, In v nodes -> exists c : Z, getc st v = Some c /\ In c (cm_comps (vi_cm vm))) /\
+         NoDup (cm_comps (vi_cm vm)) /\
+         CompartDiagram.lsum (map (count_in st) (cm_comps (vi_cm vm))) = length nodes.
+Proof. exact CVI7_counts_sync. Qed.
+
+Theorem C07_vi_posted_removal_diagram :
+  forall (p T : Q) (nodes : list Z) (edges init : list (Z * Z)) (inf : list (Z * Z * Q)) 
+           (maxtime : Q) (monitor : option Q) (Xtr : trans viworld -> Prop) (rs ls : list Q) 
+           (ds : list nat) (cs : list (st viworld * dcall)) (s : st viworld),
+         let D := mk_vitable (sir_vi_gen p (Some T)) nodes edges init inf maxtime monitor in
+         graph_okb nodes edges = true ->
+         init_ok (vi_cm (sir_vi_gen p (Some T))) nodes init = true ->
+         DSteps D Xtr (setup_state (d_tb D) rs ls ds) cs s ->
+         forall (s1 : st viworld) (c : dcall),
+         In (s1, c) cs ->
+         forall v : Z,
+         getc (cw_st (vi_base (world (dafter D c s1)))) v <> getc (cw_st (vi_base (world s1))) v ->
+         exists l c' : Z,
+           getc (cw_st (vi_base (world s1))) v = Some l /\
+           getc (cw_st (vi_base (world (dafter D c s1)))) v = Some c' /\ In (l, c') [(1%Z, 2%Z); (3%Z, 1%Z)].
+Proof. exact CVI7_posted_removal_diagram. Qed.
+
+Theorem C07_vi_posted_removal_inv :
+  forall (p T : Q) (nodes : list Z) (edges init : list (Z * Z)) (inf : list (Z * Z * Q)) 
+           (maxtime : Q) (monitor : option Q) (Xtr : trans viworld -> Prop) (rs ls : list Q) 
+           (ds : list nat) (cs : list (st viworld * dcall)) (s : st viworld),
+         let D := mk_vitable (sir_vi_gen p (Some T)) nodes edges init inf maxtime monitor in
+         graph_okb nodes edges = true ->
+         init_ok (vi_cm (sir_vi_gen p (Some T))) nodes init = true ->
+         DSteps D Xtr (setup_state (d_tb D) rs ls ds) cs s ->
+         JP p T nodes edges init s /\
+         Forall (fun sc : st viworld * dcall => JP p T nodes edges init (fst sc)) cs.
+Proof. exact CVI7_posted_removal_inv. Qed.
+
+Example C07_vi_example_quiescent :
+  let D :=
+           mk_vitable (sir_vi 1) [0%Z; 1%Z] [(0%Z, 1%Z)] [(0%Z, 1%Z); (1%Z, 3%Z)]
+             (initial_infectivities [(0%Z, 1%Z)] [0]) 3 None in
+         let r := dstoch_run D 50 50 [1 # 2; 1 # 2; 1 # 2] [1; 1] [0%nat] in
+         r_stuck r = false /\
+         r_time r = 1 /\
+         r_events r = 1%nat /\
+         loci (r_final r) = [[]; []] /\
+         map (getc (cw_st (vi_base (world (r_final r))))) [0%Z; 1%Z] = [Some 2%Z; Some 3%Z] /\
+         Qeq_bool (dsum_rates (r_final r) (dtransitions D (loci (r_final r)) (world (r_final r)))) 0 = true /\
+         vi_nonneg (sir_vi 1) (world (r_final r)).
+Proof. exact CVI7_example_quiescent. Qed.
+
